@@ -274,6 +274,38 @@ func ruleLOCKBAL(c *Checker, pkg string) {
 				if f, acq, _, ok := lockOp(d.Common()); ok && !acq {
 					deferred[f] = true
 				}
+				// `defer func() { mu.Unlock() }()`: an unlock on every path through the deferred literal
+				if mc, ok := d.Call.Value.(*ssa.MakeClosure); ok {
+					if lit, ok := mc.Fn.(*ssa.Function); ok {
+						unl := map[*types.Var]bool{}
+						allInstrs(lit, func(x ssa.Instruction) {
+							if cl, ok := x.(*ssa.Call); ok {
+								if f, acq, _, ok := lockOp(cl.Common()); ok && !acq {
+									unl[f] = true
+								}
+							}
+						})
+						for f := range unl {
+							f := f
+							all := true
+							allInstrs(lit, func(x ssa.Instruction) {
+								if ret, ok := x.(*ssa.Return); ok && pathFromEntry(lit, ret, func(y ssa.Instruction) bool {
+									cl, ok := y.(*ssa.Call)
+									if !ok {
+										return false
+									}
+									g, acq, _, ok := lockOp(cl.Common())
+									return ok && !acq && g == f
+								}) {
+									all = false
+								}
+							})
+							if all {
+								deferred[f] = true
+							}
+						}
+					}
+				}
 			}
 		})
 		in[fn.Blocks[0]] = map[*types.Var]bool{}
